@@ -2,3 +2,29 @@
 import re
 from .rustlex import lex, match_close, norm
 from .weave import apply_edits, Unsupported, _next_code, _prev_code
+
+
+def r11_rpitit(text, log):
+    """R11: return-position `impl Trait` in a trait method signature -> the associated type rustc desugars
+    it to (`-> &mut impl ErrorQueue` => `-> &mut Self::Rpit0_`; the template declares `type Rpit0_: ErrorQueue;`)."""
+    toks = lex(text)
+    edits = []
+    seen_arrow = False
+    n = 0
+    for k, t in enumerate(toks):
+        if t.text == "-" and k + 1 < len(toks) and toks[k + 1].text == ">":
+            seen_arrow = True
+        if t.kind == "punct" and t.text in ("{", ";"):
+            break
+        if seen_arrow and t.kind == "ident" and t.text == "impl":
+            # bound = following path tokens up to '{', ';' or 'where'
+            m = _next_code(toks, k)
+            e = m
+            while e < len(toks) and not (toks[e].text in ("{", ";", ",") or toks[e].text == "where"):
+                e += 1
+            last = _prev_code(toks, e)
+            bound = text[toks[m].start:toks[last].end]
+            edits.append((t.start, toks[last].end, f"Self::Rpit{n}_"))
+            log.append(("R11", f"return-position impl {bound} -> associated type Self::Rpit{n}_ (declared in template with bound {bound})"))
+            n += 1
+    return apply_edits(text, edits)
